@@ -546,6 +546,8 @@ type caseIn struct {
 	Big bool `json:"big"` // do not echo payloads (Go-side predicate only)
 	FeedAgeS int `json:"feed_age_s"` // vconn: virtual seconds of application silence before every further tunnel read
 	Trickle  int `json:"trickle"`    // udptrickle: number of datagrams the local side is prepared to trickle
+	Mode2  string   `json:"proto"`  // tunpeer: "tcp" | "udp"
+	Relays []caseIn `json:"relays"` // poolprobe: tcp relays run one after the other before the pool is probed
 	Pre int  `json:"pre"` // udpgate: datagrams that leave alone through a timed flush before the stalled one
 }
 
@@ -633,6 +635,8 @@ type caseOut struct {
 	G       *gateObs `json:"g,omitempty"` // udpgate mode
 	TC      *tcObs   `json:"tc,omitempty"` // udptc mode
 	TR      *tcpRealObs `json:"tr,omitempty"` // tcpreal mode
+	TP      *tunPeerObs `json:"tp,omitempty"` // tunpeer mode
+	PP      *poolObs    `json:"pp,omitempty"` // poolprobe mode
 	TK      *trickleObs `json:"tk,omitempty"` // udptrickle mode
 }
 
@@ -982,6 +986,10 @@ func runCase(raw json.RawMessage) interface{} {
 		runUDPTCCase(&c, out)
 	case "tcpreal":
 		runTCPRealCase(&c, out)
+	case "tunpeer":
+		runTunPeerCase(&c, out)
+	case "poolprobe":
+		runPoolProbeCase(&c, out)
 	case "udptrickle":
 		runUDPTrickleCase(&c, out)
 	default:
